@@ -8,10 +8,15 @@ import (
 	"verif/scen/fscrash"
 	"verif/scen/kvstore"
 	"verif/scen/linksys"
+	"verif/scen/shared"
 	"verif/scen/walkctl"
 )
 
 func main() {
+	if len(os.Args) > 1 && os.Args[1] == "--c20child" {
+		os.Exit(shared.ChildMain(os.Args[2:]))
+	}
+	driver.Register(shared.S{})
 	driver.Register(fscrash.S{})
 	driver.Register(kvstore.S{})
 	driver.Register(linksys.S06{})
